@@ -351,4 +351,19 @@ def F.plainAll : List F → Bool
   | f :: fs => f.plain && F.plainAll fs
 end
 
+/-! ### the reference index -/
+
+/-- the index a reindex builds for layout `cfg` (which (attribute, index type) tables exist) -/
+def idxOf (w : World) (cfg : Nat → IType → Bool) : Idx := fun a t k =>
+  if cfg a t then
+    some (match t with
+      | .equality => w.live.filter (fun id => (w.ent id a).contains k)
+      | .presence => if k = presKey then w.live.filter (fun id => !(w.ent id a).isEmpty) else []
+      | .substring =>
+        match k with
+        | .str s => w.live.filter (fun id => (w.ent id a).any (fun x => (subKeysOf x).contains s))
+        | .num _ => []
+      | .ordering => [])
+  else none
+
 end Kanidm.Filter
